@@ -371,6 +371,8 @@ def _mutations(v, wide=False):
             out.append(('none_vs_empty_list', ['list', []]))
         if wide:
             out.extend(_scalar_wide_mutations(v))
+            if t == 'scalar' and isinstance(v, float) and v == v and abs(v) < 1e300:
+                out.append(('leaf_within_isclose_tolerance', v + max(abs(v), 1.0) * 1e-9))      # a different number, far inside any rtol=1e-5 / atol=1e-8
         return out
     if t in ('list', 'tuple'):
         out.append(('ctype', ['tuple' if t == 'list' else 'list', v[1]]))
@@ -423,6 +425,8 @@ def _mutations(v, wide=False):
             for i, c in enumerate(vals):
                 if dtype == 'float64':
                     out.append(('cell', ['series', idx, vals[:i] + [0.0 if tag(c) == 'nan' else c + 3.5] + vals[i + 1:], dtype]))
+                    if wide and tag(c) != 'nan' and isinstance(c, float):
+                        out.append(('cell_within_isclose_tolerance', ['series', idx, vals[:i] + [c + max(abs(c), 1.0) * 1e-9] + vals[i + 1:], dtype]))
                     out.append(('cell_to_nan', ['series', idx, vals[:i] + [['nan', 0]] + vals[i + 1:], dtype])) if tag(c) != 'nan' else None
                 elif dtype == 'int64':
                     out.append(('cell', ['series', idx, vals[:i] + [c + 3] + vals[i + 1:], dtype]))
@@ -447,6 +451,10 @@ def _mutations(v, wide=False):
                     nr = [list(x) for x in rows]
                     nr[i][j] = 0.0 if tag(c) == 'nan' else c + 3.5
                     out.append(('cell', ['df', idx, cols, nr]))
+                    if wide and tag(c) != 'nan' and isinstance(c, float):
+                        nr2 = [list(x) for x in rows]
+                        nr2[i][j] = c + max(abs(c), 1.0) * 1e-9
+                        out.append(('cell_within_isclose_tolerance', ['df', idx, cols, nr2]))
         out.append(('length', ['df', _grow_index(idx), cols, rows + [[1.0] * len(cols)]]))
         return out
     raise ValueError(v)
